@@ -66,6 +66,12 @@ Proof. intros T fs HT Hp. split; [exact (planck_freq_to_wavelength T fs HT Hp)|e
 Theorem snell_law_real : forall n1 n2 t, 0 < n1 -> 0 < n2 -> 0 <= t <= 90 -> n1 * sin (t * PI / 180) <= n2 ->
   n1 * sin (t * PI / 180) = n2 * sin (snell n1 n2 t * PI / 180).
 Proof. exact snell_law. Qed.
+(* complex n2 (only n2 may be complex): the branch of Liou's formula agrees with the real law when the imaginary
+   part vanishes, for every angle up to total reflection -- the complex branch is a continuation of Snell's law,
+   not a different function.  (The bound |R| <= 1 for complex n2 stays a numerically swept, named gap.) *)
+Theorem snell_complex_reduces_to_real : forall n1 n2 t, 0 < n1 -> 0 < n2 -> 0 <= t <= 90 ->
+  n1 * sin (t * PI / 180) <= n2 -> snell_complex_n2 n1 n2 0 t = snell n1 n2 t.
+Proof. exact snell_complex_real_limit. Qed.
 Theorem snell_rejects_nonpositive_index : forall n1 n2 t, n1 <= 0 \/ n2 <= 0 -> snell_raises n1 n2 t.
 Proof. intros n1 n2 t H. unfold snell_raises. exact H. Qed.
 
@@ -98,6 +104,7 @@ Print Assumptions unit_converters_commute.
 Print Assumptions density_converters_inverse.
 Print Assumptions density_converters_map_planck.
 Print Assumptions snell_law_real.
+Print Assumptions snell_complex_reduces_to_real.
 Print Assumptions snell_rejects_nonpositive_index.
 Print Assumptions fresnel_bounded_real.
 Print Assumptions fresnel_normal.
